@@ -60,6 +60,9 @@ struct Scenario {
     questions: Vec<Question>,
     bound: usize,
     window: usize,
+    /// ask the question twice over one cache: what a faulty first
+    /// resolution leaves in the cache is met by the second one
+    twice: bool,
 }
 
 fn scenarios(tier: Tier) -> Vec<Scenario> {
@@ -84,6 +87,7 @@ fn scenarios(tier: Tier) -> Vec<Scenario> {
             questions: qs,
             bound,
             window: 24,
+            twice: false,
         });
     };
     let fwd = SocketAddr::new(IpAddr::V4(Ipv4Addr::new(10, 9, 9, 9)), 53);
@@ -133,14 +137,47 @@ fn scenarios(tier: Tier) -> Vec<Scenario> {
             questions: vec![q],
             bound: tier.pick(0, 1),
             window: 6,
+            twice: false,
         });
     }
+    // every scenario once more with its question asked twice
+    let again: Vec<Scenario> = out
+        .iter()
+        .filter(|s| s.params.is_some())
+        .map(|s| {
+            let mut t = s.clone();
+            t.twice = true;
+            t.name = format!("{} (asked twice)", s.name);
+            t.window = 12;
+            t
+        })
+        .collect();
+    out.extend(again);
     out
 }
 
-fn replay_json(sc: &Scenario, si: usize, q: &Question, choices: &[usize]) -> Value {
+/// (server address, index into the fault alphabet) for every server of the
+/// scenario and every fault: a server that misbehaves the same way on every
+/// exchange.  Index 0 of the returned list means "no such server".
+fn sticky_list(sc: &Scenario) -> Vec<Option<(IpAddr, usize)>> {
+    let mut v = vec![None];
+    let mut addrs: Vec<IpAddr> = sc.universe.serving.keys().copied().collect();
+    if let Some(f) = sc.universe.forwarder {
+        addrs.push(f);
+    }
+    let n = fault_alphabet().len();
+    for a in addrs {
+        for f in 1..n {
+            v.push(Some((a, f)));
+        }
+    }
+    v
+}
+
+fn replay_json(sc: &Scenario, si: usize, q: &Question, sticky: Option<(IpAddr, usize)>, choices: &[usize]) -> Value {
     json!({
         "kind": "net-fault",
+        "sticky": sticky.map(|(a, f)| json!({"addr": a.to_string(), "fault_index": f, "fault": show_fault(&fault_alphabet()[f])})),
         "scenario": si,
         "scenario_name": sc.name,
         "tier_of_scenario_table": "see `tier`",
@@ -149,8 +186,16 @@ fn replay_json(sc: &Scenario, si: usize, q: &Question, choices: &[usize]) -> Val
     })
 }
 
-fn spec_for(sc: &Scenario, q: &Question) -> RunSpec {
-    let mut spec = base_spec(sc.universe.clone(), vec![Step::Ask(q.clone())]);
+fn spec_for(sc: &Scenario, q: &Question, sticky: Option<(IpAddr, usize)>) -> RunSpec {
+    let steps = if sc.twice {
+        vec![Step::Ask(q.clone()), Step::Ask(q.clone())]
+    } else {
+        vec![Step::Ask(q.clone())]
+    };
+    let mut spec = base_spec(sc.universe.clone(), steps);
+    if let Some((a, f)) = sticky {
+        spec.sticky = vec![(a, fault_alphabet()[f].clone())];
+    }
     spec.mode = sc.mode.clone();
     spec.protocol_mode = sc.protocol;
     spec.faults = fault_alphabet();
@@ -235,16 +280,16 @@ fn judge(sc: &Scenario, res: &RunResult) -> Vec<(&'static str, String)> {
     out
 }
 
-fn run_item(tier: Tier, scs: &[Scenario], items: &[(usize, usize)], i: usize, acc: &mut JsonAcc) {
-    let (si, qi) = items[i];
+fn run_item(tier: Tier, scs: &[Scenario], items: &[(usize, usize, Option<(IpAddr, usize)>)], i: usize, acc: &mut JsonAcc) {
+    let (si, qi, sticky) = items[i];
     let sc = &scs[si];
     let q = &sc.questions[qi];
-    let spec = spec_for(sc, q);
+    let spec = spec_for(sc, q, sticky);
     let mut stats = ExploreStats::default();
     if acc.trace {
         let (sc2, q2) = (sc.clone(), q.clone());
         stats.pre = Some(Box::new(move |prefix: &[usize]| {
-            println!("EXEC {}", replay_json(&sc2, si, &q2, prefix));
+            println!("EXEC {}", replay_json(&sc2, si, &q2, sticky, prefix));
             use std::io::Write;
             let _ = std::io::stdout().flush();
         }));
@@ -252,7 +297,7 @@ fn run_item(tier: Tier, scs: &[Scenario], items: &[(usize, usize)], i: usize, ac
     let max_exec = tier.pick(40_000u64, 2_000_000u64);
     let mut visit = |res: &RunResult, choices: &[usize]| {
         if let Some(d) = &res.divergence {
-            acc.violate("machinery-divergence", d.clone(), replay_json(sc, si, q, choices), None);
+            acc.violate("machinery-divergence", d.clone(), replay_json(sc, si, q, sticky, choices), None);
             return;
         }
         let findings = judge(sc, res);
@@ -267,9 +312,12 @@ fn run_item(tier: Tier, scs: &[Scenario], items: &[(usize, usize)], i: usize, ac
                     msg,
                     show_log(&res.log)
                 ),
-                replay_json(sc, si, q, choices),
+                replay_json(sc, si, q, sticky, choices),
                 None,
             );
+        }
+        if sticky.is_some() {
+            acc.count("executions_with_a_persistently_faulty_server", 1);
         }
         let faults: Vec<String> = res
             .log
@@ -315,7 +363,9 @@ fn run_item(tier: Tier, scs: &[Scenario], items: &[(usize, usize)], i: usize, ac
             }));
         }
     };
-    explore(&spec, sc.bound, max_exec, &mut stats, &mut visit);
+    // with a persistently faulty server the positional faults are bounded one lower
+    let bound = if sticky.is_some() { sc.bound.saturating_sub(1).min(tier.pick(0, 1)) } else { sc.bound };
+    explore(&spec, bound, max_exec, &mut stats, &mut visit);
     acc.count("executions", stats.executions);
     acc.count("exchanges", stats.exchanges);
     acc.count("choice_points", stats.choice_points);
@@ -326,11 +376,13 @@ fn run_item(tier: Tier, scs: &[Scenario], items: &[(usize, usize)], i: usize, ac
     }
 }
 
-fn item_list(scs: &[Scenario]) -> Vec<(usize, usize)> {
+fn item_list(scs: &[Scenario]) -> Vec<(usize, usize, Option<(IpAddr, usize)>)> {
     let mut v = Vec::new();
     for (si, sc) in scs.iter().enumerate() {
         for qi in 0..sc.questions.len() {
-            v.push((si, qi));
+            for st in sticky_list(sc) {
+                v.push((si, qi, st));
+            }
         }
     }
     v
@@ -388,7 +440,11 @@ fn replay_inner(ctx: &Ctx, v: &Value) -> i32 {
         .iter()
         .filter_map(|c| c.as_u64().map(|c| c as usize))
         .collect();
-    let spec = spec_for(&sc, &q);
+    let sticky = v["sticky"]["addr"]
+        .as_str()
+        .and_then(|a| a.parse::<IpAddr>().ok())
+        .map(|a| (a, v["sticky"]["fault_index"].as_u64().unwrap_or(1) as usize));
+    let spec = spec_for(&sc, &q, sticky);
     let res = run_once(&spec, &choices);
     println!("scenario: {}", sc.name);
     println!("exchanges: {}", show_log(&res.log));
